@@ -141,7 +141,8 @@ _B = ('0 <= a_s < 4 and 0 <= a_e < 8 and 0 <= a_p < 6 and 0 <= b_s < 4 and 0 <= 
       'and 0 <= flags < 6 and 0 <= paths < 4')
 # quick: A anywhere (all names), B beside it in /r or /r/sub with the compiled/source extensions, C fixed
 _Q = _B + ' and (not pydir or (flags == 0 and paths == 0 and link == 0 and a_p == 0)) and b_s <= 1 and b_e <= 2 and b_p <= 1 and c_s == 0 and c_e == 1 and (flags == 0 or (a_s == 0 and b_s == 0)) and (paths == 0 or (a_s <= 1 and a_e <= 1 and b_e <= 1))  and (link == 0 or (a_e == 0 and b_e == 0 and a_s == 0))'
-_T = _B + ' and c_s <= 1 and c_e <= 2'
+_T = (_B + ' and c_s == 0 and c_e <= 1 and b_s <= 1 and b_e <= 3 and b_p <= 2 and ((link != 0) + (flags != 0) + (paths != 0) + pydir <= 1) '
+      'and ((link == 0 and flags == 0 and paths == 0 and not pydir) or a_s <= 1)')
 
 
 def _v(**kw):
